@@ -7,3 +7,4 @@ for m in json.load(open(sys.argv[1] + "/mutants/mutants.json")):
     if m["builds_and_passes_baseline"]:
         print(m["id"], " ".join(m["properties"]))
 PY
+# summary for DESIGN.md: mutants/results.json {mutant: {property: exit code}} from the lines printed above (re-run with `| tee`)
